@@ -351,6 +351,7 @@ def run_built(args, seed, bins, missing_hooks, ovjson, pcfg, t0):
         deadline = time.time() + budget
         gmp = pcfg.get("gomaxprocs", 1)
         env = worker_env(bins, gmp)
+        env.update(pcfg.get("env", {}))
         for f in glob.glob(os.path.join(logdir, key + ".*.err")):
             os.remove(f)
         ncases = inf["Cases"]
